@@ -15,8 +15,8 @@ Local Open Scope N_scope.
 Lemma quorum_of_pos ws : 0 < ElectionSpec.quorum_of ws.
 Proof. unfold ElectionSpec.quorum_of. lia. Qed.
 
-Lemma id_fresh_not_temp x n : id_fresh x -> ~ is_temp n x.
-Proof. intros F (ep & lm & c & t & _ & S & E). exact (F ep lm c t S E). Qed.
+Lemma id_fresh_not_temp K x n : n <= K -> id_fresh K x -> ~ is_temp n x.
+Proof. intros L F (ep & lm & c & t & Bc & S & E). apply F. exists ep, lm, c, t. split; [lia | auto]. Qed.
 
 Section Sim.
 Variable cap : nat.
